@@ -419,6 +419,14 @@ def spec_call(self, name, e, st):
         if name == "forall_int":
             return Val(z3.ForAll([i], z3.Implies(rng, self.truthy(body))), "bool")
         return Val(z3.Exists([i], z3.And(rng, self.truthy(body))), "bool")
+    if name == "forall_slist":
+        lam = e.args[0]
+        var = lam.args.args[0].arg
+        x = bound_var(var, SList)
+        s = st.fork()
+        s.env[var] = Val(x, "slist")
+        body = one(lam.body, s)
+        return Val(z3.ForAll([x], self.truthy(body)), "bool")
     if name in ("forall_ref", "forall_str"):
         lam = e.args[0]
         var = lam.args.args[0].arg
@@ -834,6 +842,7 @@ def method_call(self, st, base, attr, args, node):
         if not isinstance(tgt, ast.Name):
             raise Unsupported("append on non-name sequence")
         s = st.fork()
+        self.cast_guard(st, args[0], base.ty[1], getattr(node, "lineno", None))
         x = self.coerce(args[0], base.ty[1]).t
         new = z3.Concat(base.t, z3.Unit(x))
         # sound facts about append, stated explicitly so that quantified invariants over indices instantiate
